@@ -233,4 +233,18 @@ PROPS = {
         "assumptions": [],
         "not_decided": ["sharing does not change any output; any admissible statement order yields identical streams (relations between two programs' runs)"],
     },
+    "C13": {
+        "modules": ["contracts.c13_reference", "contracts.c09_nested"],
+        "level": "proof",
+        "design_ref": "DESIGN.md section 8, C13",
+        "trusted_base": [
+            "C04 contracts of TSDataView (modified(T) <=> lmt == T; a delta has a payload only in its cycle)",
+            "resolved_value_data() returns the data view of the currently bound target; link_storage() the link of this position",
+            "a sampled structural transition records the link at the transition time (target_link.cpp bind_sampled, not under contract)",
+            "E2 shims for In<>/Out<>/TSInputView/TSOutputView/ValueView are signature-only; their behaviour is the contract used here",
+        ],
+        "assumptions": [],
+        "not_decided": ["alternative.cpp bind_target_link_at and target_link.cpp bind_* (re-binding and subscription moves)",
+                        "keyed shapes' old-only/new-only delta (target_link_ops.cpp)", "several consumers below one reference"],
+    },
 }
